@@ -78,6 +78,7 @@ func sortCheck(c *core.Ctx, vals []int, rs rankerSpec, r *core.Rng, viaCollectio
 	work := append([]Tag{}, in...)
 	var pmsg string
 	noTerm := false
+	decoyBad := false
 	func() {
 		defer func() {
 			if e := recover(); e != nil {
@@ -87,8 +88,24 @@ func sortCheck(c *core.Ctx, vals []int, rs rankerSpec, r *core.Rng, viaCollectio
 				pmsg = fmt.Sprint(e)
 			}
 		}()
-		age.Sorter[Tag]().MakeWithRanker(ranker).SortValues(work)
+		// the sorter under test is made first, then decoy sorters of the same
+		// type with other rankers are made and used: sorters are independent
+		sorter := age.Sorter[Tag]().MakeWithRanker(ranker)
+		decoy := age.Sorter[Tag]().MakeWithRanker(func(a, b Tag) age.Rank { return cmp3(b.ID, a.ID) })
+		dw := append([]Tag{}, in...)
+		decoy.SortValues(dw)
+		for i := 0; i+1 < len(dw); i++ {
+			if dw[i].ID < dw[i+1].ID {
+				decoyBad = true
+			}
+		}
+		_ = age.Sorter[Tag]().Make()
+		sorter.SortValues(work)
 	}()
+	if decoyBad {
+		c.Violation("sort.SortValues/sorters-not-independent", "a second sorter of the same type (ranker: descending id) did not sort by its own ranker", cs)
+		return false
+	}
 	if noTerm {
 		c.Violation("sort.SortValues/no-termination/"+rs.name, fmt.Sprintf("the ranker was called more than %d times for %d values", bound, n), cs)
 		return false
